@@ -50,6 +50,14 @@ Theorem C10_once_each : forall cfg th lg sv tag its id,
 Proof. exact one_calls_once_each. Qed.
 Print Assumptions C10_once_each.
 
+(* whatever the C++ shape of the callable (lambda, function object, function pointer, std::function …) *)
+Theorem C10_callable_kind_irrelevant : forall k k' id ret x,
+  ss_put x (ICall k id ret) = ss_put x (ICall k' id ret)
+  /\ item_text (ICall k id ret) = item_text (ICall k' id ret)
+  /\ calls_of [ICall k id ret] = calls_of [ICall k' id ret].
+Proof. exact callable_kind_irrelevant. Qed.
+Print Assumptions C10_callable_kind_irrelevant.
+
 (* the named form gives the same trace, hence the same calls *)
 Theorem C10_forms_agree : forall cfg w v lg sv tag its,
   w_slots w v = None ->
@@ -100,12 +108,12 @@ Local Open Scope string_scope.
 Definition cfg_warn := mkConfig Warn harness_fmt.
 Definition lg_t0 := mkLogger (FThr 0) 2.
 Definition th_err : thresholds := set_threshold init_thresholds 0 Error.
-Example C10_ex_compile_time : exec_one cfg_warn init_thresholds lg_t0 Info None [ICall 1 (B "x"); ICall 2 (B "y")] = [].
+Example C10_ex_compile_time : exec_one cfg_warn init_thresholds lg_t0 Info None [ICall KLambda 1 (B "x"); ICall KStdFunL 2 (B "y")] = [].
 Proof. reflexivity. Qed.
-Example C10_ex_runtime : exec_one cfg_warn th_err lg_t0 Warn None [ICall 1 (B "x"); ICall 2 (B "y")] = [].
+Example C10_ex_runtime : exec_one cfg_warn th_err lg_t0 Warn None [ICall KFunPtr 1 (B "x"); ICall KFunctor 2 (B "y")] = [].
 Proof. reflexivity. Qed.
 Example C10_ex_enabled :
-  filter is_call (exec_one cfg_warn th_err lg_t0 Fatal None [ICall 1 (B "x"); IStr (B "-"); ICall 2 (B "y"); ICall 1 (B "z")])
+  filter is_call (exec_one cfg_warn th_err lg_t0 Fatal None [ICall KLambda 1 (B "x"); IStr (B "-"); ICall KStdFunL 2 (B "y"); ICall KFunPtr 1 (B "z")])
   = [Call 1; Call 2; Call 1].
 Proof. reflexivity. Qed.
 Example C10_ex_gate_hyp : gate_open Warn Info = false /\ holds th_err (FThr 0) Warn = false.
